@@ -82,10 +82,21 @@ func seedOverlay(patch string) (map[string][]byte, error) {
 	return ov, nil
 }
 
+// runBenignTest runs checker f on each behaviour-preserving refactoring kept under /verif/benign: none may be reported.
+func runBenignTest(vdir, id, tier string, f checker) []selfResult {
+	dirs, _ := filepath.Glob(filepath.Join(vdir, "benign", "R*-*"))
+	sort.Strings(dirs)
+	return runVariants(vdir, id, dirs, f)
+}
+
 // runSelfTest runs checker f on each seed of property id and returns the results.
 func runSelfTest(vdir, id, tier string, f checker) []selfResult {
 	dirs, _ := filepath.Glob(filepath.Join(vdir, "seeded", id+"-*"))
 	sort.Strings(dirs)
+	return runVariants(vdir, id, dirs, f)
+}
+
+func runVariants(vdir, id string, dirs []string, f checker) []selfResult {
 	var out []selfResult
 	for _, d := range dirs {
 		res := selfResult{Seed: filepath.Base(d)}
